@@ -16,6 +16,43 @@ CLAIMED = {
         "Trusted: Lean kernel; Python int arithmetic; sqlite's & / BETWEEN; the correspondence generator's reach.",
         "DESIGN.md section 5, C10",
     ),
+    "C05": (
+        "Lean 4 theorems over a model of send/split + differential correspondence; spec parser/unwrapper/base64 decoder on the real stream",
+        "Theorems in lean/Tup/Props/C05.lean (send_too_small, send_sizes, send_lossless, send_flags, send_keys, for every payload, header, "
+        "limit and number of tmux layers) about Tup.Model.Command against Tup.Spec.GfxParse/TmuxUnwrap and the independent base64 decoder; "
+        "model tied to /repo by byte-for-byte comparison of emitted streams (harness/c05.py); the spec is run on the real stream to find failing inputs.",
+        "Trusted: Lean kernel; Python %-formatting, b64encode, read(n); spec = transcription of the kitty grammar.",
+        "DESIGN.md section 5, C05",
+    ),
+    "C06": (
+        "Lean 4 theorems (parse_toBytes for all command types) + regenerated key/enum tables checked by decide +kernel + differential correspondence",
+        "Theorems in lean/Tup/Props/C06.lean: the independent parser recovers a permutation of Spec.fields and the exact payload for every command "
+        "value; key letters, tuple order and enum codes are regenerated from /repo on every run (Tup/Gen/Keys.lean) and re-checked by the kernel; "
+        "bytes compared with the real classes over the presence lattice x boundary values (harness/c06.py).",
+        "Trusted: Lean kernel; Spec.fields is a transcription of the protocol's key table.",
+        "DESIGN.md section 5, C06",
+    ),
+    "C11": (
+        "Lean 4 theorems (unwrap_wrap, no_lone_esc, content_no_esc, detect_iff) + differential correspondence incl. both detection sites",
+        "Theorems in lean/Tup/Props/C11.lean for every command, chunk and number of layers; correspondence over commands x 0..4 layers and the "
+        "TMUX/TERM environment table through GraphicsTerminal.detect_tmux and the TupimageTerminal constructor (pty child); thorough: real tmux pass-through.",
+        "Trusted: Lean kernel; Spec.TmuxUnwrap = tmux pass-through convention (validated against tmux 3.3a in the thorough tier).",
+        "DESIGN.md section 5, C11",
+    ),
+    "C15": (
+        "Lean 4 theorems in exact arithmetic over a model of get_optimal_cols_and_rows + exact/tolerance correspondence with the float code",
+        "Theorems in lean/Tup/Props/C15.lean (bounds, minimal_box, no_unused, explicit_kept, verbatim) for all sizes, cell sizes, scales and limits "
+        "in ideal arithmetic; the real float code is compared exactly on the float-exact domain and judged by the rational spec with a 1e-9 tolerance elsewhere.",
+        "PARTIAL: IEEE-754 rounding is outside the proof. Trusted: Lean kernel, tty ioctl, harness/ptyhost.py.",
+        "DESIGN.md section 5, C15",
+    ),
+    "C17": (
+        "Lean 4 theorems over a model of validate_and_normalize and the layer fold (option table regenerated from the code) + differential correspondence through the real constructor",
+        "Theorems in lean/Tup/Props/C17.lean (precedence, layer_labels, printer/parser round trips, wrong_type_rejected, same_text_every_layer[_partial]); "
+        "every option x value class x subset of layers through the real TupimageTerminal constructor in a pty child; TOML dump/load round trip checked dynamically.",
+        "PARTIAL: TOML round trip only dynamic; same_text_every_layer_partial excludes floats/negative ints/free strings/lists on the Lean side. Trusted: toml 0.10.2 as identity channel.",
+        "DESIGN.md section 5, C17",
+    ),
     "C09": (
         "Lean 4 theorems over a model of the upload's I/O program + fault enumeration of the real code at every write/flush",
         "Theorems in lean/Tup/Props/C09.lean: for every list of escape codes and every fault position/kind the error surfaces and "
